@@ -1,6 +1,6 @@
 \* exhaustive check of the closed model (quick scope): every scenario x every tie order x every sequence of commitments
-CONSTANTS WeightVecs = {1, 6, 7, 10, 12}  FeatDiag = TRUE  NPods = 2  PodArchs = {1, 2, 3, 6, 7}
-CONSTANTS Feats = {"plain", "taint", "prefer", "limit", "limit16", "zoneA", "teamX", "min2", "notReady", "startup"}
+CONSTANTS WeightVecs = {6, 12}  FeatDiag = TRUE  NPods = 2  PodArchs = {1, 2, 3, 6, 7}
+CONSTANTS Feats = {"plain", "taint", "prefer", "limit", "limit16", "zoneA", "teamX", "min2", "archMin2", "notReady", "startup"}
 CONSTANTS Catalogs = {1}  DaemonSets = {2}  MaxTypesSet = {2}  Policies = {"Strict"}  Weak = ""
 SPECIFICATION Spec
 INVARIANTS Inv_C19_HighestWeightFeasible Inv_C19_CheapestPrefix Inv_C13_TypesSubsetMinValues Inv_C13_Requests Inv_C13_Template
